@@ -65,6 +65,12 @@ enum Op {
         data: Value,
         failat: i64,
     },
+    Rthr {
+        threads: usize,
+        iters: usize,
+        target: String,
+        data: Value,
+    },
     Cmp(String),
     Tok(tok::Rule, String),
     EscHtml(u32, u32),
@@ -246,6 +252,20 @@ fn parse_op(toks: &[&str]) -> Result<Op, BadCase> {
         "has" => {
             need(args, 1)?;
             Op::Has(p_str(args[0])?)
+        }
+        "rthr" => {
+            need(args, 4)?;
+            let threads: usize = p_num(args[0])?;
+            let iters: usize = p_num(args[1])?;
+            if threads == 0 || threads > 64 || iters == 0 || iters > 1000 {
+                return Err(BadCase);
+            }
+            Op::Rthr {
+                threads,
+                iters,
+                target: p_str(args[2])?,
+                data: codec::parse_json(args[3]).ok_or(BadCase)?,
+            }
         }
         "keys" => {
             need(args, 0)?;
@@ -472,6 +492,39 @@ impl Write for FailWriter {
     fn flush(&mut self) -> io::Result<()> {
         Ok(())
     }
+}
+
+/// compile-time: the registry can be shared between threads and cloned
+#[allow(dead_code)]
+fn assert_send_sync_clone<T: Send + Sync + Clone>() {}
+#[allow(dead_code)]
+fn registry_is_shareable() {
+    assert_send_sync_clone::<Handlebars<'static>>();
+}
+
+/// `rthr`: N threads share one registry (by reference) and each renders `iters` times through
+/// entry 0; observation `T:<number of distinct results>:<result of the first render>`.
+fn rthr_obs(reg: &Handlebars<'static>, threads: usize, iters: usize, target: &str, data: &Value) -> String {
+    let results: Vec<Vec<String>> = std::thread::scope(|sc| {
+        let hs: Vec<_> = (0..threads)
+            .map(|_| {
+                sc.spawn(move || {
+                    let mut v = Vec::with_capacity(iters);
+                    for _ in 0..iters {
+                        probes::log_clear();
+                        v.push(render_obs(reg, 0, target, data, -1));
+                    }
+                    v
+                })
+            })
+            .collect();
+        hs.into_iter().map(|h| h.join().unwrap_or_else(|_| vec!["PANIC".to_string()])).collect()
+    });
+    let mut distinct: Vec<&String> = results.iter().flatten().collect();
+    let first = distinct.first().map(|s| (*s).clone()).unwrap_or_default();
+    distinct.sort();
+    distinct.dedup();
+    format!("T:{}:{}", distinct.len(), first)
 }
 
 fn render_obs(reg: &Handlebars<'static>, entry: u8, target: &str, data: &Value, failat: i64) -> String {
@@ -701,6 +754,12 @@ impl CaseState {
                 data,
                 failat,
             } => render_obs(self.reg()?, *entry, target, data, *failat),
+            Op::Rthr {
+                threads,
+                iters,
+                target,
+                data,
+            } => rthr_obs(self.reg()?, *threads, *iters, target, data),
             Op::Cmp(src) => match Template::compile(src) {
                 Ok(t) => format!("ast:{}", ast::template_text(&t)),
                 Err(e) => terr_obs(&e),
